@@ -38,6 +38,7 @@ type c04Model struct {
 	lastRRb, lastRRe int // last ResendRequest seen (e==0: to infinity)
 	rrCount  int
 	early    map[int]bool // early application numbers kept during a recovery
+	adminEarly map[int]bool // administrative numbers sent live ahead of a gap: the engine may keep them or not
 	earlyDelivered int
 	completed int
 	marker   int
@@ -70,6 +71,12 @@ func (m *c04Model) deliver(label string, frame []byte, seq int, covers []int, o 
 	env.Note("%s", label)
 	r := p.SendRaw(frame, o)
 	for _, n := range covers {
+		if n > Tb && !m.plan[n].app && len(covers) == 1 && !o.PossDup {
+			// a live administrative message ahead of a gap: whether it is kept is FIX behaviour the
+			// statement does not constrain; an honest peer gap-fills its number in the replay anyway
+			m.adminEarly[n] = true
+			continue
+		}
 		if n >= Tb {
 			m.received[n] = true
 		}
@@ -142,7 +149,23 @@ func (m *c04Model) deliver(label string, frame []byte, seq int, covers []int, o 
 	m.open = nowOpen
 	// nothing received is lost: the engine expects exactly the model's number
 	if st := m.s.E.Store(); st != nil && !env.Failed() {
-		if got := st.inner.NextTargetMsgSeqNum(); got != Ta {
+		got0 := st.inner.NextTargetMsgSeqNum()
+		if got0 > Ta {
+			// the engine kept early administrative messages and has consumed them: follow it
+			t := Ta
+			for t < got0 && (m.received[t] || m.adminEarly[t]) {
+				t++
+			}
+			if t == got0 {
+				for n := Ta; n < got0; n++ {
+					m.received[n] = true
+				}
+				Ta = m.mex()
+				m.T = Ta
+				m.open = m.anyMissing(Ta)
+			}
+		}
+		if got := got0; got != Ta {
 			if len(p.Recv) > 0 && p.Recv[len(p.Recv)-1].Type() == "5" {
 				env.Violate("C04/kept-message-rejected", "engine logged out during recovery after %s; expected number %d, model %d: %s", label, got, Ta, summarize(r))
 			} else {
@@ -162,7 +185,7 @@ func runC04(env *Env, tier string) {
 	c.HeartBtInt = hb
 	s := StartSut(env, c)
 	p := s.P
-	m := &c04Model{env: env, s: s, chunk: c.ChunkSize, plan: map[int]c04Plan{}, received: map[int]bool{}, early: map[int]bool{}}
+	m := &c04Model{env: env, s: s, chunk: c.ChunkSize, plan: map[int]c04Plan{}, received: map[int]bool{}, early: map[int]bool{}, adminEarly: map[int]bool{}}
 	m.top = func() int { return p.OutSeq }
 	if c.BeginString < "FIX.4.2" {
 		m.marker = 999999
@@ -318,9 +341,12 @@ func runC04(env *Env, tier string) {
 				}
 				sendNumber(n, true, "out-of-order replay")
 				env.Stat("fault_out_of_order_replay")
-			case 2: // live application message
-				n := alloc(true)
-				m.early[n] = true
+			case 2: // live message (mostly application; sometimes a heartbeat)
+				liveApp := !ch.Chance("liveadmin", 1, 5)
+				n := alloc(liveApp)
+				if liveApp {
+					m.early[n] = true
+				}
 				sendNumber(n, false, "live")
 				env.Stat("probe_live_during_recovery")
 			case 3: // duplicate of something already consumed
@@ -374,8 +400,13 @@ func runC04(env *Env, tier string) {
 		for i := 0; i < g; i++ {
 			alloc(ch.Chance("plan", 1, 2))
 		}
-		n := alloc(true)
-		m.early[n] = true
+		openerApp := !ch.Chance("adminopener", 1, 4)
+		n := alloc(openerApp)
+		if openerApp {
+			m.early[n] = true
+		} else {
+			env.Stat("probe_gap_detected_on_admin_message")
+		}
 		sendNumber(n, false, fmt.Sprintf("skip %d,", g))
 		env.State(fmt.Sprintf("gap=%d chunk=%d", g, c.ChunkSize))
 		recoverNow()
